@@ -47,8 +47,8 @@ def make_db(b, rng):
           "fltSets": {"F1": rng.choice(b["flt"])}}
     return db
 
-def irr_of(db):
-    irr = {"as_sets": {}, "routes4": {}, "routes6": {}, "route_sets": {}, "filter_sets": {}, "errors": {}, "empty_as_c": False}
+def irr_of(db, pad=0):
+    irr = {"as_sets": {}, "routes4": {}, "routes6": {}, "route_sets": {}, "filter_sets": {}, "errors": {}, "empty_as_c": False, "pad": pad}
     for n, o in db["asSets"].items():
         irr["as_sets"][NAMES[n]] = [NAMES[m] for m in o["sets"]] + [NAMES[m] for m in o["items"]]
     for a, atoms in db["routes"].items():
@@ -117,7 +117,8 @@ def check_c11(tier):
         cases = []
         for e in exprs(b, rng, nex, 3 if tier == "thorough" else 2, allow_v6_complement=1 if g == 0 else 0):
             cases.append({"case": f"c{ncase}", "expr": e, "expr_str": render(e)}); ncase += 1
-        groups.append({"db": db, "irr": irr_of(db), "names": NAMES, "cases": cases})
+        # every fourth database answers with many kilobytes (padded objects, repeated members and routes)
+        groups.append({"db": db, "irr": irr_of(db, 9000 if len(groups) % 4 == 1 else 0), "names": NAMES, "cases": cases})
     gpath = os.path.join(wd, "groups.ndjson")
     with open(gpath, "w") as f:
         for g in groups:
@@ -222,7 +223,7 @@ def check_c17(tier):
                 pool = {"asSets": ["S1", "S2"], "ases": ["A1", "A2", "A3"], "rtSets": ["R1", "R2"], "fltSets": ["F1"]}[which]
                 errs[which] = rng.sample(pool, rng.randint(1, len(pool)))
             hist.append({"case": f"h{g}-{len(hist)}", "expr": e, "expr_str": render(e), "errs": errs}); ncase += 1
-        groups.append({"db": db, "irr": irr_of(db), "names": NAMES, "twice": g % 2 == 0, "history": hist})
+        groups.append({"db": db, "irr": irr_of(db, 9000 if g % 5 == 2 else 0), "names": NAMES, "twice": g % 2 == 0, "history": hist})
     # long streaks of failing evaluations (each touching filter-, as- and route-sets) before clean ones: state that an
     # evaluator only resets on success, or that builds up per failure, shows only here
     F1 = {"op": "fset", "name": "F1"}; S = lambda n: {"op": "asset", "name": n, "rng": [0, 0]}; R1 = {"op": "rset", "name": "R1", "rng": [0, 0]}
@@ -237,6 +238,18 @@ def check_c17(tier):
             hist.append({"case": f"L{g}-{len(hist)}", "expr": e, "expr_str": render(e),
                          "errs": {"asSets": [], "ases": [], "rtSets": [], "fltSets": [], "kind": "D"}}); ncase += 1
         groups.append({"db": db, "irr": irr_of(db), "names": NAMES, "twice": g % 2 == 0, "history": hist})
+    # ... and long runs of evaluations every one of which meets errors the evaluator sinks (route queries, route-set and
+    # filter-set look-ups answered E / F): each result is still the history-free one
+    for g in range(20 if tier == "thorough" else 4):
+        db = make_db(b, rng); hist = []
+        pool = [{"op": "or", "l": S("S1"), "r": F1}, {"op": "or", "l": R1, "r": S("S2")}, {"op": "or", "l": {"op": "as", "name": "A1", "rng": [0, 0]}, "r": R1},
+                {"op": "and", "l": S("S1"), "r": {"op": "or", "l": F1, "r": S("S2")}}]
+        for k in range(44):
+            e = pool[k % len(pool)]
+            errs = {"asSets": [], "ases": [["A1"], ["A2", "A3"], ["A1", "A2", "A3"]][k % 3], "rtSets": ["R1"] if k % 2 else ["R1", "R2"],
+                    "fltSets": ["F1"] if k % 3 == 0 else [], "kind": ["E", "F"][(g + k) % 2]}
+            hist.append({"case": f"K{g}-{len(hist)}", "expr": e, "expr_str": render(e), "errs": errs}); ncase += 1
+        groups.append({"db": db, "irr": irr_of(db), "names": NAMES, "twice": False, "history": hist})
     gpath = os.path.join(wd, "histories.ndjson")
     with open(gpath, "w") as f:
         for g in groups:
